@@ -107,7 +107,8 @@ def coord_to_index(coord, coords, include_stop=False):
 
 
 def gen_coord_list(start, step, count):
-    return np.arange(start, start + step*count, step)
+    # Exactly count values: arange with a float step and a computed stop can yield one more, or fail for tiny steps
+    return start + step * np.arange(count)
 
 
 def bytes_to_double(bytes):
